@@ -6,6 +6,7 @@ import (
 	"go/constant"
 	"go/token"
 	"go/types"
+	"reflect"
 	"sort"
 	"strconv"
 	"strings"
@@ -742,6 +743,71 @@ func ruleFragmentKept(c *Ctx) {
 			}
 		}
 		c.ob(rule, fn+":no-fragment-dropped", pos, why == "", why)
+		// a fragment is an object: a nil map, pointer or slice of the receiver rendered by json.Marshal is the
+		// text null, which the join does not treat as an empty object
+		nullWhy := ""
+		nullPos := fd.Pos()
+		recv := c.recvObj(fd)
+		for _, p := range paths {
+			if len(p.rets) != 2 || nullWhy != "" {
+				continue
+			}
+			if _, isNil := p.rets[1].(svNil); !isNil {
+				continue
+			}
+			for _, e := range p.effs {
+				if e.kind != "call" || len(e.call.args) != 1 {
+					continue
+				}
+				f, ok := e.call.callee.(*types.Func)
+				if !ok || f.Pkg() == nil || f.Pkg().Path() != "encoding/json" || f.Name() != "Marshal" {
+					continue
+				}
+				q, isP := e.call.args[0].(svPath)
+				if !isP || q.root != recv || recv == nil {
+					continue
+				}
+				t := c.simTypeAtPath(q)
+				if t == nil {
+					continue
+				}
+				switch t.Underlying().(type) {
+				case *types.Map, *types.Pointer, *types.Slice:
+				default:
+					continue
+				}
+				known := false
+				n := e.ncond
+				if n > len(p.conds) {
+					n = len(p.conds)
+				}
+				for _, cd := range p.conds[:n] {
+					if cd.loop {
+						if lq, isLP := cd.v.(svPath); isLP && !cd.neg && svEqual(lq, q) {
+							known = true
+						}
+						continue
+					}
+					b, isB := cd.v.(svBin)
+					if !isB || cd.neg {
+						continue
+					}
+					if x, isX := b.x.(svPath); isX && svEqual(x, q) && b.op == token.NEQ {
+						if _, isNil := b.y.(svNil); isNil {
+							known = true
+						}
+					}
+					if lc, isCall := b.x.(svCall); isCall && lc.callee == nil && len(lc.args) == 1 && svEqual(lc.args[0], q) && (b.op == token.GTR || b.op == token.NEQ) {
+						known = true
+					}
+				}
+				if !known {
+					nullWhy = svString(q) + " is rendered as a fragment where it is not known to be non-nil: a nil " + t.Underlying().String() + " renders as null, and the joined output is not the object it should be"
+					nullPos = e.pos
+				}
+			}
+		}
+		c.ob(rule, fn+":no-null-fragment", nullPos, nullWhy == "", nullWhy)
 	}
 }
 
@@ -1257,4 +1323,489 @@ func (c *Ctx) extraFillBySim(u *ast.FuncDecl) (*extraFillFacts, bool) {
 		}
 	}
 	return res, res.stores > 0
+}
+
+func init() {
+	registerRule("lookup-token-verbatim", 5, "a JSONLookup method indexes its maps with the token exactly as it is given (or with its integer value): the token arrives decoded, transforming it again looks up another name", ruleLookupTokenVerbatim)
+}
+
+// ruleLookupTokenVerbatim (C15): on the effect normal form of every JSONLookup method (helpers inlined), every
+// map or slice selection whose index depends on the token parameter uses the parameter itself, or the first
+// result of strconv.Atoi applied to it. jsonpointer hands the token over already unescaped; a second Unescape,
+// a case fold or a trim makes names that contain "~0", "~1", upper-case letters or blanks unreachable on the
+// typed document while they are reachable on its JSON form.
+func ruleLookupTokenVerbatim(c *Ctx) {
+	const rule = "lookup-token-verbatim"
+	for _, fd := range c.allFuncDecls() {
+		if fd.Body == nil || fd.Recv == nil || fd.Name.Name != "JSONLookup" {
+			continue
+		}
+		token := c.paramObj(fd, 0)
+		if token == nil || !isStringType(token.Type()) {
+			continue
+		}
+		paths, unsup := c.simulate(fd, nil)
+		if unsup != "" || len(paths) == 0 {
+			continue // outside the fragment: nothing is claimed for this lookup
+		}
+		fn := c.funcName(fd)
+		c.saw(fn)
+		why := ""
+		mentionsToken := func(v sval) bool {
+			found := false
+			svWalk(v, func(x sval) {
+				if p, ok := x.(svPath); ok && p.root == token {
+					found = true
+				}
+			})
+			return found
+		}
+		verbatim := func(i sval) bool {
+			if isBareParam(i, token) {
+				return true
+			}
+			if sc, ok := i.(svCall); ok && sc.idx == 0 && len(sc.args) == 1 && isBareParam(sc.args[0], token) {
+				if f, isF := sc.callee.(*types.Func); isF && f.Pkg() != nil && f.Pkg().Path() == "strconv" && (f.Name() == "Atoi" || f.Name() == "ParseInt") {
+					return true
+				}
+			}
+			return false
+		}
+		check := func(v sval) {
+			svWalk(v, func(x sval) {
+				var m, i sval
+				switch y := x.(type) {
+				case svIndex:
+					m, i = y.x, y.i
+				case svHas:
+					m, i = y.x, y.i
+				default:
+					return
+				}
+				if !mentionsToken(i) || verbatim(i) || why != "" {
+					return
+				}
+				// a string indexed by position (token[0]) is not a lookup
+				if mp, isP := m.(svPath); isP && mp.root == token {
+					return
+				}
+				// only string-keyed maps: an integer key computed from the token is its value, however it is parsed
+				if mp, isP := m.(svPath); isP {
+					if t := c.simTypeAtPath(mp); t != nil {
+						if mt, isMap := t.Underlying().(*types.Map); isMap {
+							if b, isB := mt.Key().Underlying().(*types.Basic); !isB || b.Info()&types.IsString == 0 {
+								return
+							}
+						} else {
+							return
+						}
+					}
+				}
+				why = "the lookup selects " + svString(x) + ": the index is derived from the token but is not the token itself (it arrives decoded: names holding the characters the transformation touches are found on the JSON form and not on the typed document)"
+			})
+		}
+		for _, p := range paths {
+			for _, cd := range p.conds {
+				check(cd.v)
+			}
+			for _, r := range p.rets {
+				check(r)
+			}
+			for _, e := range p.effs {
+				if e.kind == "call" {
+					for _, a := range e.call.args {
+						check(a)
+					}
+				}
+				if e.kind == "write" {
+					check(e.val)
+				}
+			}
+		}
+		c.ob(rule, fn+":token-as-given", fd.Pos(), why == "", why)
+	}
+}
+
+func init() {
+	registerRule("encode-guard-complete", 10, "an encoder skips a struct component of its receiver only under tests that read every member the component can emit", ruleEncodeGuardComplete)
+}
+
+// ruleEncodeGuardComplete (C01/C06): on the effect normal form of every MarshalJSON method (predicates inlined),
+// take a component C of the receiver (a struct-typed field, embedded or not) that some successful path hands to an
+// encoder and another successful path does not mention in anything it encodes. On the skipping path the conditions
+// in force must read every member of C that has a JSON name: a "has anything to say" predicate that forgets one
+// member drops that member whenever it is the only one set.
+func ruleEncodeGuardComplete(c *Ctx) {
+	const rule = "encode-guard-complete"
+	for _, fd := range c.allFuncDecls() {
+		if fd.Body == nil || fd.Recv == nil || fd.Name.Name != "MarshalJSON" {
+			continue
+		}
+		recv := c.recvObj(fd)
+		if recv == nil {
+			continue
+		}
+		rst, ok := derefType(recv.Type()).Underlying().(*types.Struct)
+		if !ok {
+			continue
+		}
+		paths, unsup := c.simulate(fd, nil)
+		if unsup != "" || len(paths) == 0 {
+			continue
+		}
+		fn := c.funcName(fd)
+		c.saw(fn)
+		// the struct components, and their members with a JSON name
+		type comp struct {
+			name    string
+			members []string
+		}
+		var comps []comp
+		for i := 0; i < rst.NumFields(); i++ {
+			f := rst.Field(i)
+			st, isSt := derefType(f.Type()).Underlying().(*types.Struct)
+			if !isSt || !f.Exported() {
+				continue
+			}
+			if n, isN := types.Unalias(derefType(f.Type())).(*types.Named); isN && n.Obj().Pkg() != c.Types {
+				continue
+			}
+			cm := comp{name: f.Name()}
+			for k := 0; k < st.NumFields(); k++ {
+				sf := st.Field(k)
+				tag := reflect.StructTag(st.Tag(k)).Get("json")
+				if !sf.Exported() || tag == "-" {
+					continue
+				}
+				cm.members = append(cm.members, sf.Name())
+			}
+			if len(cm.members) > 0 {
+				comps = append(comps, cm)
+			}
+		}
+		mentionsComp := func(v sval, name string) bool {
+			found := false
+			svWalk(v, func(x sval) {
+				var p svPath
+				switch y := x.(type) {
+				case svPath:
+					p = y
+				case svAddr:
+					p = y.p
+				default:
+					return
+				}
+				if p.root == recv && firstStep(p) == name {
+					found = true
+				}
+			})
+			return found
+		}
+		isEncoderCall := func(sc *svCall) bool {
+			f, ok := sc.callee.(*types.Func)
+			if !ok || f.Pkg() == nil {
+				return false
+			}
+			return f.Pkg().Path() == "encoding/json" && f.Name() == "Marshal" || f.Name() == "MarshalJSON"
+		}
+		success := func(p spath) bool {
+			if len(p.rets) != 2 {
+				return false
+			}
+			_, isNil := p.rets[1].(svNil)
+			return isNil
+		}
+		for _, cm := range comps {
+			encodedSomewhere := false
+			var skipping []spath
+			for _, p := range paths {
+				if !success(p) {
+					continue
+				}
+				enc := false
+				for _, e := range p.effs {
+					if e.kind != "call" || !isEncoderCall(e.call) {
+						continue
+					}
+					for _, a := range e.call.args {
+						if mentionsComp(a, cm.name) {
+							enc = true
+						}
+					}
+					if e.call.recv != nil && mentionsComp(e.call.recv, cm.name) {
+						enc = true
+					}
+				}
+				if enc {
+					encodedSomewhere = true
+				} else {
+					skipping = append(skipping, p)
+				}
+			}
+			if !encodedSomewhere || len(skipping) == 0 {
+				continue
+			}
+			why := ""
+			for _, p := range skipping {
+				read := map[string]bool{}
+				whole := false
+				for _, cd := range p.conds {
+					svWalk(cd.v, func(x sval) {
+						q, ok := x.(svPath)
+						if !ok || q.root != recv || firstStep(q) != cm.name {
+							return
+						}
+						var steps []string
+						for _, s := range q.steps {
+							if s != "*" {
+								steps = append(steps, s)
+							}
+						}
+						if len(steps) == 1 {
+							whole = true // the component compared as a whole
+						} else {
+							read[steps[1]] = true
+						}
+					})
+				}
+				if whole {
+					continue
+				}
+				var missing []string
+				for _, m := range cm.members {
+					if !read[m] {
+						missing = append(missing, m)
+					}
+				}
+				if len(missing) > 0 && why == "" {
+					why = fmt.Sprintf("a successful path encodes nothing of %s although the tests it took never looked at %s: a value in which only that member is set loses it", cm.name, strings.Join(missing, ", "))
+				}
+			}
+			c.ob(rule, fn+":"+cm.name, fd.Pos(), why == "", why)
+		}
+		c.ob(rule, "scan:"+fn, fd.Pos(), true, "").Trivial = true
+	}
+}
+
+func init() {
+	registerRule("memo-key-complete", 1, "what a function remembers in a map (or in a field) of its receiver, its context or the package is looked up again under a key (a test) that involves every parameter the remembered value was computed from", ruleMemoKeyComplete)
+}
+
+// ruleMemoKeyComplete (C02/C05/C10/C16): on the effect normal form (nothing inlined, indices kept) of every
+// package function that both looks a key up in a map held below its receiver or in a package variable and stores
+// into that map under the same key, the parameters the stored value was computed from all occur in the key:
+// otherwise a later call with another value of the forgotten parameter is served the answer computed for the
+// first one. The single-slot form is decided the same way: a field of the receiver's object graph that one path
+// fills from its parameters and another path hands back must be handed back only under tests that involve those
+// parameters.
+func ruleMemoKeyComplete(c *Ctx) {
+	const rule = "memo-key-complete"
+	n := 0
+	for _, fd := range c.allFuncDecls() {
+		if fd.Body == nil {
+			continue
+		}
+		// cheap syntactic pre-filter: a store into a map or a field that is not a local
+		interesting := false
+		ast.Inspect(fd.Body, func(nd ast.Node) bool {
+			as, ok := nd.(*ast.AssignStmt)
+			if !ok {
+				return true
+			}
+			for _, l := range as.Lhs {
+				switch x := unparen(l).(type) {
+				case *ast.IndexExpr:
+					if _, isSel := unparen(x.X).(*ast.SelectorExpr); isSel {
+						interesting = true
+					}
+					if id, isId := unparen(x.X).(*ast.Ident); isId {
+						if v, isVar := c.objOf(id).(*types.Var); isVar && v.Parent() == c.Types.Scope() {
+							interesting = true
+						}
+					}
+				case *ast.SelectorExpr:
+					interesting = true
+				}
+			}
+			return true
+		})
+		if !interesting {
+			continue
+		}
+		params := map[types.Object]bool{}
+		for i := 0; ; i++ {
+			p := c.paramObj(fd, i)
+			if p == nil {
+				break
+			}
+			params[p] = true
+		}
+		if len(params) == 0 {
+			continue
+		}
+		s := &effsim{c: c, keepIndices: true, keepAllIndices: true, inline: func(*types.Func) bool { return false }}
+		st := &sstate{vars: map[types.Object]sval{}, heap: map[string]sval{}, hkeys: map[string]svPath{}}
+		recv := c.recvObj(fd)
+		if recv != nil {
+			st.vars[recv] = svPath{root: recv}
+		}
+		for p := range params {
+			st.vars[p] = svPath{root: p}
+		}
+		if f, ok := c.Info.Defs[fd.Name].(*types.Func); ok {
+			s.stack = append(s.stack, f)
+		}
+		var paths []spath
+		s.callBody(fd.Type, fd.Body, st, func(st *sstate, rets []sval) {
+			paths = append(paths, spath{conds: st.conds, effs: st.effs, rets: rets, final: st.vars})
+			s.npaths++
+			if s.npaths > effsimMaxPaths {
+				s.fail("too many paths")
+			}
+		})
+		if s.unsupported != "" || len(paths) == 0 {
+			continue
+		}
+		fn := c.funcName(fd)
+		paramsOf := func(v sval) map[string]bool {
+			out := map[string]bool{}
+			svWalk(v, func(x sval) {
+				switch y := x.(type) {
+				case svPath:
+					if params[y.root] {
+						out[y.root.Name()] = true
+					}
+				case svAddr:
+					if params[y.p.root] {
+						out[y.p.root.Name()] = true
+					}
+				}
+			})
+			return out
+		}
+		shared := func(p svPath) bool {
+			if p.root == nil {
+				return p.via != nil
+			}
+			if p.root == recv && recv != nil {
+				return true
+			}
+			if v, ok := p.root.(*types.Var); ok && v.Parent() == c.Types.Scope() {
+				return true
+			}
+			return false
+		}
+		derived := func(v sval) bool {
+			// only values computed by a call are "remembered results"
+			found := false
+			svWalk(v, func(x sval) {
+				if _, ok := x.(svCall); ok {
+					found = true
+				}
+			})
+			return found
+		}
+		reported := map[string]bool{}
+		for _, p := range paths {
+			for _, e := range p.effs {
+				if e.kind != "write" || !shared(e.dst) || len(e.dst.steps) == 0 || !derived(e.val) {
+					continue
+				}
+				last := e.dst.steps[len(e.dst.steps)-1]
+				need := paramsOf(e.val)
+				if len(need) == 0 {
+					continue
+				}
+				if strings.HasPrefix(last, "[#") {
+					// ---- map form: the miss test of the same key on this path
+					keyStr := strings.TrimSuffix(strings.TrimPrefix(last, "[#"), "]")
+					var key sval
+					for _, cd := range p.conds {
+						if h, ok := cd.v.(svHas); ok && cd.neg && svString(h.i) == keyStr {
+							key = h.i
+						}
+					}
+					if key == nil {
+						continue
+					}
+					have := paramsOf(key)
+					var missing []string
+					for q := range need {
+						if !have[q] {
+							missing = append(missing, q)
+						}
+					}
+					sort.Strings(missing)
+					k := fn + ":" + strings.Join(e.dst.steps[:len(e.dst.steps)-1], ".")
+					if reported[k] {
+						continue
+					}
+					reported[k] = true
+					n++
+					c.saw(fn)
+					c.ob(rule, k, e.pos, len(missing) == 0,
+						fmt.Sprintf("the value remembered under %s is computed from %s, which the key does not involve: a later call that differs only there is served the value computed for this one", keyStr, strings.Join(missing, ", ")))
+					continue
+				}
+				if strings.HasPrefix(last, "[") {
+					continue
+				}
+				// ---- slot form: another path hands the slot back without having stored into it
+				slot := e.dst
+				for _, h := range paths {
+					wrote, tested, handed := false, false, false
+					for _, g := range h.effs {
+						if g.kind == "write" && svEqual(g.dst, slot) {
+							wrote = true
+						}
+					}
+					if wrote {
+						continue
+					}
+					for _, cd := range h.conds {
+						if b, ok := cd.v.(svBin); ok && !cd.neg {
+							if q, isP := b.x.(svPath); isP && svEqual(q, slot) {
+								tested = true
+							}
+						}
+					}
+					for _, rv := range h.rets {
+						svWalk(rv, func(x sval) {
+							if q, ok := x.(svPath); ok && svEqual(q, slot) {
+								handed = true
+							}
+						})
+					}
+					if !tested || !handed {
+						continue
+					}
+					have := map[string]bool{}
+					for _, cd := range h.conds {
+						for q := range paramsOf(cd.v) {
+							have[q] = true
+						}
+					}
+					var missing []string
+					for q := range need {
+						if !have[q] {
+							missing = append(missing, q)
+						}
+					}
+					sort.Strings(missing)
+					k := fn + ":" + strings.Join(slot.steps, ".")
+					if reported[k] {
+						continue
+					}
+					reported[k] = true
+					n++
+					c.saw(fn)
+					c.ob(rule, k, e.pos, len(missing) == 0,
+						fmt.Sprintf("%s is filled from %s on one path and handed back on another under tests that do not involve %s: a later call that differs only there is served the value computed for the first one", svString(slot), strings.Join(missing, ", "), strings.Join(missing, ", ")))
+				}
+			}
+		}
+	}
+	if n == 0 {
+		c.ob(rule, "no-memo", token.NoPos, true, "").Trivial = true
+	}
 }
